@@ -117,3 +117,142 @@ Definition run_c07_judge (inp : list Z) : list Z :=
   | n :: r => if n <=? 0 then [-1] else judge n (take_arrs r (length r))
   | _ => [-1]
   end.
+
+(** ============================================================================================================
+    The two-simcall protocol (model checker, replay mode: [MC_is_active() || MC_record_replay_is_active()]):
+        auto acq = simcall_answered(BARRIER_ASYNC_LOCK){ pimpl_->acquire_async(issuer) };      -- [ALock p]
+        simcall_blocking(BARRIER_WAIT){ acq->wait_for(issuer, -1) };                            -- [AWait p]
+    Any other actor may run between the two.  An acquisition lives from its creation by [acquire_async] until the
+    wait on it returns; [s_acqs] lists the live ones in creation order: issuer, ghost arrival number, [granted_], and
+    whether the issuer is blocked in [wait_for] on it (it is in the issuer's [waiting_synchros_]).
+    [acquire_async] by the last of a group walks [ongoing_acquisitions_]: every acquisition becomes granted; the ones
+    whose issuer is blocked on them are finish()ed (the issuer resumes: they are no longer live); the queue is
+    cleared.  [wait_for] finishes at once when the acquisition is granted, else the issuer stays blocked.
+    A model checker only fires an enabled BARRIER_WAIT (a granted one); the model also covers the wait issued before
+    the grant (what the one-simcall path does), so every interleaving of the two simcalls is a list of [sop]. *)
+Inductive sop := ALock (p : pid) | AWait (p : pid).
+
+Record acq := mkAcq { q_pid : pid; q_idx : Z; q_granted : bool; q_waiting : bool }.
+Record sbar := mkS { s_bar : bar; s_acqs : list acq }.
+
+Inductive sout :=
+| SRejected                      (* the actor has no such simcall pending (ALock while it holds an acquisition, AWait
+                                    without one or while already blocked): nothing happens *)
+| SQueued                        (* ALock: pushed to ongoing_acquisitions_, not granted *)
+| SGrant (woken marked : list (pid * Z)) (self : pid * Z)
+                                 (* ALock by the last of a group: [woken] were blocked in wait_for and resume now,
+                                    [marked] are granted and will return as soon as they wait; queue cleared *)
+| SBlocks                        (* AWait on an acquisition that is not granted yet *)
+| SReturns (self : pid * Z).     (* AWait on a granted acquisition: returns at once *)
+
+Definition find_acq (p : pid) (l : list acq) : option acq := find (fun a => q_pid a =? p) l.
+
+Fixpoint remove_first (p : pid) (l : list acq) : list acq :=
+  match l with
+  | [] => []
+  | a :: r => if q_pid a =? p then r else a :: remove_first p r
+  end.
+Fixpoint upd_first (p : pid) (f : acq -> acq) (l : list acq) : list acq :=
+  match l with
+  | [] => []
+  | a :: r => if q_pid a =? p then f a :: r else a :: upd_first p f r
+  end.
+Definition set_waiting (a : acq) : acq := mkAcq (q_pid a) (q_idx a) (q_granted a) true.
+Definition set_granted (a : acq) : acq := mkAcq (q_pid a) (q_idx a) true (q_waiting a).
+
+(* is the issuer of queue entry e blocked on its acquisition? *)
+Definition is_waiting (l : list acq) (e : pid * Z) : bool :=
+  match find_acq (fst e) l with Some a => q_waiting a | None => false end.
+
+(* the release loop of acquire_async seen from the live acquisitions *)
+Fixpoint grant_acqs (q : list (pid * Z)) (l : list acq) : list acq :=
+  match l with
+  | [] => []
+  | a :: r => if in_queue (q_pid a) q
+              then (if q_waiting a then grant_acqs q r else set_granted a :: grant_acqs q r)
+              else a :: grant_acqs q r
+  end.
+
+Definition sstep (s : sbar) (o : sop) : sbar * sout :=
+  let b := s_bar s in
+  match o with
+  | ALock p =>
+    match find_acq p (s_acqs s) with
+    | Some _ => (s, SRejected)
+    | None =>
+      let me := (p, arrived b) in
+      if Z.of_nat (length (queue b)) <? (expected b - 1) mod W32
+      then (mkS (mkBar (expected b) (arrived b + 1) (queue b ++ [me])) (s_acqs s ++ [mkAcq p (arrived b) false false]),
+            SQueued)
+      else (mkS (mkBar (expected b) (arrived b + 1) [])
+                (grant_acqs (queue b) (s_acqs s) ++ [mkAcq p (arrived b) true false]),
+            SGrant (filter (is_waiting (s_acqs s)) (queue b))
+                   (filter (fun e => negb (is_waiting (s_acqs s) e)) (queue b)) me)
+    end
+  | AWait p =>
+    match find_acq p (s_acqs s) with
+    | None => (s, SRejected)
+    | Some a =>
+      if q_waiting a then (s, SRejected)
+      else if q_granted a then (mkS b (remove_first p (s_acqs s)), SReturns (p, q_idx a))
+      else (mkS b (upd_first p set_waiting (s_acqs s)), SBlocks)
+    end
+  end.
+
+Definition sinit (n : Z) : sbar := mkS (init n) [].
+Definition sexec (n : Z) (ops : list sop) : sbar := fold_left (fun s o => fst (sstep s o)) ops (sinit n).
+Fixpoint srun (s : sbar) (ops : list sop) : list sout :=
+  match ops with
+  | [] => []
+  | o :: r => let '(s', x) := sstep s o in x :: srun s' r
+  end.
+
+(* the waits that return because of a step *)
+Definition returned (o : sout) : list (pid * Z) :=
+  match o with SGrant w _ _ => w | SReturns e => [e] | _ => [] end.
+
+(* projection on the one-simcall protocol: the accepted ALocks, in order, with what [step] answers *)
+Definition proj_out (b : bar) (o : sout) : out :=
+  match o with SGrant _ _ me => Release (queue b) me | _ => Blocked end.
+Fixpoint locks (s : sbar) (ops : list sop) : list (pid * out) :=
+  match ops with
+  | [] => []
+  | o :: r =>
+    let '(s', x) := sstep s o in
+    match o, x with
+    | ALock _, SRejected => locks s' r
+    | ALock p, _ => (p, proj_out (s_bar s) x) :: locks s' r
+    | AWait _, _ => locks s' r
+    end
+  end.
+
+(** Executable entry point.  Input: n (op pid)*  with op 0 = ALock, 1 = AWait.
+    Output per op: code (0 rejected 1 queued 2 grant 3 blocks 4 returns)  k woken pids (wake order)
+                   k queue pids   k (pid granted waiting)* live acquisitions in creation order *)
+Definition b2z (b : bool) : Z := if b then 1 else 0.
+Definition dump_s (s : sbar) : list Z :=
+  Z.of_nat (length (queue (s_bar s))) :: map fst (queue (s_bar s)) ++
+  Z.of_nat (length (s_acqs s)) :: flat_map (fun a => [q_pid a; b2z (q_granted a); b2z (q_waiting a)]) (s_acqs s).
+Fixpoint srun_io (s : sbar) (l : list Z) (fuel : nat) : list Z :=
+  match fuel with
+  | O => []
+  | S f =>
+    match l with
+    | op :: p :: r =>
+      let '(s', o) := sstep s (if op =? 0 then ALock p else AWait p) in
+      let head := match o with
+                  | SRejected => [0; 0]
+                  | SQueued => [1; 0]
+                  | SGrant w _ _ => 2 :: Z.of_nat (length w) :: map fst w
+                  | SBlocks => [3; 0]
+                  | SReturns _ => [4; 0]
+                  end in
+      head ++ dump_s s' ++ srun_io s' r f
+    | _ => []
+    end
+  end.
+Definition run_c07_split (inp : list Z) : list Z :=
+  match inp with
+  | n :: r => srun_io (sinit n) r (length r)
+  | _ => [-1]
+  end.
